@@ -103,34 +103,57 @@ def parse_impl(r):
                 out["builds"].append(dict(builder=bname, app=app, out=inf["outfile"], order=list(inf["modules"].keys())))
     return out
 
+def link_modules(ninja_text):
+    """the `# <modules>` tails of LINK commands (the generator's LINK rule echoes ${modules}): selection order"""
+    out = []
+    for ln in ninja_text.splitlines():
+        if ln.startswith("  command = ld ") and " # " in ln:
+            out.append(ln.split(" # ", 1)[1])
+    return sorted(out)
+
 def compare(model, impl_raw):
-    """-> list of disagreement strings (empty = agree)"""
+    """-> (list of disagreement strings, parsed impl, set of tags)
+    tags: crash, rc, ninja, configured (set of configured builds), modules (module sets), order (build order /
+    selection order), outfile, nobuilds, predicted-panic"""
     impl = parse_impl(impl_raw)
-    dis = []
+    dis, tags = [], set()
     if impl["crashed"]:
-        dis.append("implementation crashed/timeout rc=%s %s" % (impl["rc"], impl_raw["stderr"][-200:]))
-        return dis, impl
+        dis.append("implementation crashed/timeout rc=%s %s" % (impl["rc"], impl_raw["stderr"][-300:]))
+        tags.add("crash")
+        if model["kind"] == "ok" or model["kind"] == "err": tags.add("rc")
+        return dis, impl, tags
     if model["kind"] == "ok":
         if impl["rc"] != 0:
             dis.append("model generates, implementation fails: rc=%s %s" % (impl["rc"], impl["err"]))
-            return dis, impl
+            tags.add("rc"); return dis, impl, tags
         if impl_raw["ninja"] is None:
-            dis.append("no ninja file"); return dis, impl
+            dis.append("no ninja file"); tags.add("ninja"); return dis, impl, tags
         if impl_raw["ninja"] != model["file"]:
-            dis.append("ninja file differs")
-        mb = sorted((b["builder"], b["app"], b["out"], tuple(b["order"])) for b in model["builds"])
-        ib = sorted((b["builder"], b["app"], b["out"], tuple(b["order"])) for b in impl["builds"])
-        if mb != ib:
-            dis.append("configured builds / outfile / module lists differ")
+            dis.append("ninja file differs"); tags.add("ninja")
+            if link_modules(impl_raw["ninja"].decode("utf-8", "replace")) != link_modules(model["file"].decode("utf-8", "replace")):
+                tags.add("order")
+        mset = {(b["builder"], b["app"]): b for b in model["builds"]}
+        iset = {(b["builder"], b["app"]): b for b in impl["builds"]}
+        if set(mset) != set(iset):
+            dis.append("configured builds differ: only model %s only impl %s" % (sorted(set(mset) - set(iset)), sorted(set(iset) - set(mset))))
+            tags.add("configured")
+        for k in set(mset) & set(iset):
+            if sorted(mset[k]["order"]) != sorted(iset[k]["order"]):
+                dis.append("module set of %s differs: model %s impl %s" % (k, mset[k]["order"], iset[k]["order"])); tags.add("modules")
+            elif mset[k]["order"] != iset[k]["order"]:
+                dis.append("module (build) order of %s differs: model %s impl %s" % (k, mset[k]["order"], iset[k]["order"])); tags.add("order")
+            if mset[k]["out"] != iset[k]["out"]:
+                dis.append("outfile of %s differs" % (k,)); tags.add("outfile")
         if sorted(model["nobuilds"]) != sorted(impl["nobuilds"]):
             dis.append("not-built builds differ: model %s impl %s" % (sorted(model["nobuilds"]), sorted(impl["nobuilds"])))
+            tags.add("nobuilds")
     elif model["kind"] == "err":
         if impl["rc"] != 1:
-            dis.append("model rejects (%s), implementation rc=%s" % (model["tag"], impl["rc"]))
+            dis.append("model rejects (%s), implementation rc=%s" % (model["tag"], impl["rc"])); tags.add("rc")
     else:
-        # the model predicts a panic / fuel exhaustion
         dis.append("model outcome %s %s; implementation rc=%s" % (model["kind"], model["tag"], impl["rc"]))
-    return dis, impl
+        tags.add("predicted-panic")
+    return dis, impl, tags
 
 def run_batch(laze, driver, cases, threads=None, workers=None):
     """cases: list of (files, cli). returns list of dict(model, impl_raw, impl, dis, request)"""
@@ -145,6 +168,6 @@ def run_batch(laze, driver, cases, threads=None, workers=None):
             m = parse_model(rep)
         except Exception as e:
             m = dict(kind="badreply", tag=str(e) + rep[:200])
-        dis, impl = compare(m, raw)
-        out.append(dict(files=f, cli=c, model=m, impl_raw=raw, impl=impl, dis=dis, request=rq, reply=rep))
+        dis, impl, tags = compare(m, raw)
+        out.append(dict(files=f, cli=c, model=m, impl_raw=raw, impl=impl, dis=dis, tags=tags, request=rq, reply=rep))
     return out
